@@ -1,4 +1,4 @@
 SPECIFICATION TraceSpec
-INVARIANT I06
+INVARIANT J06
 POSTCONDITION TraceAccepted
 CHECK_DEADLOCK FALSE
